@@ -38,7 +38,7 @@ VIEWS = ['textures', 'texinfo', 'planes', 'vertexes', 'surfedges', 'primitives',
 # features a generated world may contain; a failing world is shrunk to the features it needs
 FEATURES = ['shape_detail', 'sprite_detail', 'model_detail', 'water', 'tail_overlap', 'fresh_objects', 'shared_objects',
             'long_names', 'hdr', 'physics', 'outputs', 'special_text', 'big_runs', 'hi_bytes', 'many', 'float_bounds',
-            'near_duplicates', 'grafted']
+            'near_duplicates', 'grafted', 'resave']
 
 
 def make_base(src_bsp: str, dst: str) -> None:
@@ -498,7 +498,7 @@ class Gen:
             self.graft(w)
         return w
 
-    def graft(self, w: dict[str, Any]) -> None:
+    def graft(self, w: dict[str, Any], part: str = 'graft') -> None:
         """Objects that are reachable ONLY through references of other objects, at depth >= 2, and are in no owning list:
         the writers are documented to add referenced objects themselves (find_or_insert / find_or_extend append what they do
         not know yet), so every one of them must get an index, a record, and be read back where it was referred to.
@@ -507,14 +507,14 @@ class Gen:
         texinfo.  A separate generator: the world without the feature is unchanged."""
         import srctools.bsp as B
         from srctools.const import BSPContents, SurfFlags
-        r = self.rng('graft')
+        r = self.rng(part)
         F = self.feats
         planes, verts, leafs, nodes = w['planes'], w['vertexes'], w['visleafs'], w['nodes']
         count = [0]
 
         def g_texinfo() -> Any:
             count[0] += 1
-            td = B.TexData(f'graft/{self.seed % 1000}_{count[0]}', self.vec(r), r.randint(0, 4096), r.randint(0, 4096))
+            td = B.TexData(f'{part}/{self.seed % 1000}_{count[0]}', self.vec(r), r.randint(0, 4096), r.randint(0, 4096))
             return B.TexInfo(self.vec(r), self.fl(r), self.vec(r), self.fl(r), self.vec(r), self.fl(r), self.vec(r), self.fl(r),
                              SurfFlags(r.choice([0, 1, 0x80])), td)
 
@@ -816,17 +816,25 @@ def time_limit(seconds: float):
 
     def on_alarm(_sig, _frm):
         raise ImplTimeout(f'no result after {seconds:g} s')
+    import time
     old = signal.signal(signal.SIGALRM, on_alarm)
-    signal.setitimer(signal.ITIMER_REAL, seconds)
+    outer, _ = signal.setitimer(signal.ITIMER_REAL, seconds)      # (nests: an enclosing limit keeps running afterwards)
+    t0 = time.monotonic()
     try:
         yield
     finally:
         signal.setitimer(signal.ITIMER_REAL, 0)
         signal.signal(signal.SIGALRM, old)
+        if outer:
+            signal.setitimer(signal.ITIMER_REAL, max(outer - (time.monotonic() - t0), 0.01))
 
 
-# one save or re-read of a generated world takes 0.02-0.3 s (the largest 'many' worlds about 1 s) on a loaded machine
-IMPL_TIME_LIMIT = 30.0
+# one save or re-read of a generated world takes 0.02-0.2 s, the largest ('many', 'big_runs') worlds below 1 s on a loaded machine;
+# a writer that loops for ever usually also grows a buffer (~100 MB/s): the limit keeps that below a few GB
+IMPL_TIME_LIMIT = 20.0
+# worlds with the feature 'big_runs' (visibility rows for thousands of clusters, run-length coded in pure Python) take up to 10 s per
+# save / re-read at load average 60
+IMPL_TIME_LIMIT_BIG = 300.0
 
 
 def roundtrip(base: str, workdir: str, g: Gen, only: list[str] | None = None) -> dict[str, str]:
@@ -843,6 +851,7 @@ def roundtrip(base: str, workdir: str, g: Gen, only: list[str] | None = None) ->
     b.game_lumps[b'sprp'].version = ver.version
     b.out_comma_sep = w['out_comma_sep']
     expect = canon_views(w, lambda n: w[n], g.vit, ver)
+    limit = IMPL_TIME_LIMIT_BIG if 'big_runs' in g.feats else IMPL_TIME_LIMIT
     order = ['ents'] + [v for v in VIEWS if v != 'ents']
     for v in order:
         if only is not None and v not in only:
@@ -852,14 +861,14 @@ def roundtrip(base: str, workdir: str, g: Gen, only: list[str] | None = None) ->
         setattr(b, v, w[v])
     res: dict[str, str] = {}
     try:
-        with contextlib.redirect_stdout(io.StringIO()), time_limit(IMPL_TIME_LIMIT):
+        with contextlib.redirect_stdout(io.StringIO()), time_limit(limit):
             b.save(path)
     except (Exception, ImplTimeout) as e:      # noqa: BLE001 - any exception on a well-formed value is a finding
         res['!save'] = f'{type(e).__name__}: {e}'[:300]
         return res
     try:
         exp_ver = {'l4d2': B.GameVersion.L4D2, 'vitamin': B.GameVersion.VITAMINSOURCE}.get(g.cfg)
-        with time_limit(IMPL_TIME_LIMIT):
+        with time_limit(limit):
             b2 = B.BSP(path, exp_ver)
             if b2.lump_layout is not b.lump_layout:
                 res['!read'] = 'layout of the re-read file differs from the layout written'
@@ -869,15 +878,41 @@ def roundtrip(base: str, workdir: str, g: Gen, only: list[str] | None = None) ->
     except (Exception, ImplTimeout, RecursionError) as e:      # noqa: BLE001
         res['!read'] = f'{type(e).__name__}: {e}'[:300]
         return res
-    for v in VIEWS:
-        if only is not None and v not in only:
-            continue
-        if v == 'bmodels' and w[v] is None:
-            continue
-        a, c = expect[v], got[v]
-        if v in GROWING and isinstance(a, list) and isinstance(c, list) and len(c) >= len(a):
-            c = c[:len(a)]
-        d = first_diff(a, c, v)
-        if d:
-            res[v] = d
+    def compare(expect: dict, got: dict, note: str) -> None:
+        for v in VIEWS:
+            if only is not None and v not in only:
+                continue
+            if v == 'bmodels' and w[v] is None:
+                continue
+            a, c = expect[v], got[v]
+            if v in GROWING and isinstance(a, list) and isinstance(c, list) and len(c) >= len(a):
+                c = c[:len(a)]
+            d = first_diff(a, c, v)
+            if d and v not in res:
+                res[v] = note + d
+    compare(expect, got, '')
+    if 'resave' in g.feats and not res and only is None:
+        # the other way of using the API: the objects of a file that was READ are changed in place (new objects hung below
+        # them, reachable only through references) and the same BSP object is saved again - state left behind by the first
+        # round (lumps already rebuilt, tables grown by the writers) must not leak into the second
+        get2 = lambda n: None if (n == 'bmodels' and w['bmodels'] is None) else getattr(b2, n)      # noqa: E731
+        w2 = {v: get2(v) for v in VIEWS}
+        if 'grafted' in g.feats:
+            g.graft(w2, 'graft2')
+        expect2 = canon_views(b2, lambda n: w2[n], g.vit, ver)
+        try:
+            with contextlib.redirect_stdout(io.StringIO()), time_limit(limit):
+                b2.save(path)
+        except (Exception, ImplTimeout) as e:      # noqa: BLE001
+            res['!save'] = f'second save of the re-read file: {type(e).__name__}: {e}'[:300]
+            return res
+        try:
+            with time_limit(limit):
+                b3 = B.BSP(path, exp_ver)
+                b3.static_prop_version = ver
+                got3 = canon_views(b3, lambda n: None if (n == 'bmodels' and w['bmodels'] is None) else getattr(b3, n), g.vit, ver)
+        except (Exception, ImplTimeout, RecursionError) as e:      # noqa: BLE001
+            res['!read'] = f'after the second save: {type(e).__name__}: {e}'[:300]
+            return res
+        compare(expect2, got3, 'after changing the re-read objects in place and saving again: ')
     return res
